@@ -25,6 +25,7 @@ ASSUMPTIONS = ['acceptance is decided by the real parse(); the generator only pr
 
 _accepted = {}
 KF_OUTSIDE = 'single-target-unowned-comment-outside-model'
+KF_BLANKS = 'single-target-blanks-outside-model'
 
 
 def _classify_print(m, toks, name):
@@ -37,9 +38,10 @@ def _classify_print(m, toks, name):
     except Exception:
         return f'print:{name}'
     outside = [t for t in toks if id(t) not in inside]
-    if outside and all((isinstance(t, models.BlockComment) and not t.claimed) or isinstance(t, walker.SPACING) or not t.raw_text
-                       for t in outside) and any(isinstance(t, models.BlockComment) for t in outside):
-        return KF_OUTSIDE
+    blank = lambda t: isinstance(t, walker.SPACING + (models.Indent,)) or not t.raw_text
+    if outside and all((isinstance(t, models.BlockComment) and not t.claimed) or blank(t) for t in outside):
+        # (the same mechanism with and without a comment among what lies outside: two entries of the findings file, told apart here)
+        return KF_OUTSIDE if any(isinstance(t, models.BlockComment) for t in outside) else KF_BLANKS
     return f'print:{name}'
 
 
@@ -65,7 +67,7 @@ def _check(col, text, target, acl, origin):
     got = common.pr(m)
     if got != text:
         col.violation(_classify_print(m, toks, name), f'print(parse(text)) != text for target {name} acl={acl}', dict(wit, got=got))
-        if _classify_print(m, toks, name) != KF_OUTSIDE:
+        if _classify_print(m, toks, name) not in (KF_OUTSIDE, KF_BLANKS):
             return m
     # what a sub-model spans is decided by its children, not by what the model says about itself: every child lies inside its
     # parent's first..last token (M3 on the fresh parse)
@@ -176,6 +178,14 @@ def run_case(col, r, idx):
             if vtext != stext:
                 col.count('inline_targets_respaced_multiline')
                 _check(col, vtext, t, r.random() < 0.5, 'sub-model text re-spaced over several lines')
+        if t.INLINE and r.random() < 0.35:
+            # text the grammar accepts around an inline model (blanks, a line end, a comment line below or above): whatever the
+            # returned model spans, the store holds the whole input
+            pre = r.choice(['', '', '', ' ', '\n', '; above\n'])
+            post = r.choice(['', ' ', '  ', '\n', '\n\n', ' \n', '\n; below', '\n; below\n', '\r\n'])
+            if pre or post:
+                col.count('inline_targets_with_text_around')
+                _check(col, pre + stext + post, t, r.random() < 0.5, 'sub-model text with blanks, line ends or a comment line around it')
         if not t.INLINE and r.random() < 0.3:
             # line-oriented targets with their indentation disturbed (first line unindented, a later line unindented or indented
             # deeper, first line indented): mostly rejected; whatever parse() accepts has to be kept as it is
